@@ -170,6 +170,26 @@ func (e *Eval) builtin(fr *frame, x *ssa.Call, name string, args []AV, st State)
 					e.setContent(fr, st, d.Obj, BufC{BytesV{LenKnown: cur.LenKnown, Len: cur.Len, Src: "⊤: partial copy"}})
 				}
 			}
+			if d.WinOf != nil {
+				// copy(buf[n-len(b):], b) with b = Min(v) into a fresh zero buffer of n bytes: Fixed(v, n)
+				done := false
+				if bc, ok := st[d.WinOf].(BufC); ok && d.WinLo != nil && d.WinLo.Kind == ikMinLen {
+					src, _ := args[1].(BytesV)
+					src = e.resolveBytes(src, st)
+					cur := bc.B
+					z := BytesV{HasVal: cur.HasVal && len(cur.Val.Norm()) == 0 && cur.Src == "zero", Val: Layout{}, LenMin: d.WinLo.ML}
+					if cur.LenKnown && cur.Len.Const() && d.WinLo.ML.Const == cur.Len.A {
+						if fixed, ok := leftPad(z, src); ok {
+							fixed.Src = "left-padded big.Int.Bytes"
+							e.setContent(fr, st, d.WinOf, BufC{fixed})
+							done = true
+						}
+					}
+				}
+				if !done {
+					e.setContent(fr, st, d.WinOf, topContent(d.WinOf, "copy into a sub-slice"))
+				}
+			}
 		} else {
 			e.escape(fr, st, args[0], "copy destination")
 		}
@@ -219,6 +239,11 @@ func (e *Eval) builtin(fr *frame, x *ssa.Call, name string, args []AV, st State)
 					return BytesV{Src: "conv", Str: StrV{Kind: skConcat, Parts: parts}}
 				}
 			}
+			if y, ok := args[1].(BytesV); ok {
+				if fixed, ok := leftPad(e.resolveBytes(d, st), e.resolveBytes(y, st)); ok {
+					return fixed
+				}
+			}
 			// concatenation of two byte strings with known content
 			a0 := e.resolveBytes(d, st)
 			var a1 BytesV
@@ -265,7 +290,14 @@ func (e *Eval) invoke(fr *frame, x *ssa.Call, recv AV, method string, args []AV,
 			b = e.resolveBytes(b, st)
 			e.record(fr, x, "invoke:hash.Write", recv, []AV{b}, nil, st)
 			if hc.Top == "" {
-				n := HashC{Writes: append(append([]BytesV{}, hc.Writes...), stripObj(b))}
+				ws := append([]BytesV{}, hc.Writes...)
+				if k := len(ws); k > 0 {
+					if fixed, ok := leftPad(ws[k-1], b); ok {
+						ws = ws[:k-1]
+						b = fixed
+					}
+				}
+				n := HashC{Writes: append(ws, stripObj(b))}
 				e.setContent(fr, st, h.O, n)
 			}
 			ln := IntV(RangeInt(0, 1<<31))
@@ -749,7 +781,7 @@ func (e *Eval) bigMethod(fr *frame, x *ssa.Call, m string, args []AV, st State) 
 	case "Bytes":
 		c := get(0)
 		if l, ok := c.asLayout(); ok {
-			return BytesV{Min: true, HasVal: true, Val: l, Src: "big.Int.Bytes"}
+			return BytesV{Min: true, HasVal: true, Val: l, Src: "big.Int.Bytes", LenMin: &MinLen{Coef: 1, Sym: l.String(), Val: l}}
 		}
 		if c.Kind == bkConst {
 			return BytesV{LenKnown: true, Len: K(int64(len(c.C.Bytes()))), Src: "bytes of constant"}
@@ -783,6 +815,9 @@ func (e *Eval) bigMethod(fr *frame, x *ssa.Call, m string, args []AV, st State) 
 			e.setContent(fr, st, b.Obj, BufC{n})
 		} else if b.Param != nil {
 			e.event("F4", Violated, x, "FillBytes into caller-owned slice %s", b.Param.Name())
+		}
+		if b.WinOf != nil {
+			e.setContent(fr, st, b.WinOf, topContent(b.WinOf, "FillBytes into a sub-slice"))
 		}
 		return args[1]
 	case "BitLen", "Sign", "IsInt64", "IsUint64", "Bit", "TrailingZeroBits", "ProbablyPrime":
@@ -998,4 +1033,17 @@ func (e *Eval) guardedResult(x *ssa.Call, callee *ssa.Function, rets []retRec) (
 	res := append([]AV{}, okV...)
 	res[len(res)-1] = ErrV{Kind: ekFrom, From: fnKey(callee), Site: x}
 	return res, out, true
+}
+
+
+// leftPad recognises zeros(n - |Min(v)|) followed by Min(v): together exactly the n-byte
+// big-endian encoding of v (the pre-FillBytes idiom).  z is the zero prefix, m the minimal encoding.
+func leftPad(z, m BytesV) (BytesV, bool) {
+	if z.LenMin == nil || z.LenMin.Coef != -1 || !z.HasVal || len(z.Val.Norm()) != 0 {
+		return BytesV{}, false
+	}
+	if !m.Min || m.LenMin == nil || m.LenMin.Coef != 1 || m.LenMin.Const != 0 || m.LenMin.Sym != z.LenMin.Sym || !m.HasVal {
+		return BytesV{}, false
+	}
+	return BytesV{LenKnown: true, Len: K(z.LenMin.Const), HasVal: true, Val: m.Val, Src: "left-padded big.Int.Bytes"}, true
 }
